@@ -438,7 +438,7 @@ fn prop_archive(c: &ArchiveCase, ctx: &Ctx) -> PResult {
 pub fn property() -> Property {
     Property {
         id: "C05",
-        rule: "direct route: schema of 1..24 columns over all 19 column types at non-overlapping offsets with gaps (packed bools may share a byte), arbitrary fixed-region size, 1..4 pages, 1..4 languages in the 2-byte on-disk form; 1..8 rows with distinct ids in shuffled physical order, either single-record rows with a string heap (junk gaps between strings, ASCII strings 0..300 incl. control characters) or 2..8 (up to 300) sub-rows, also with string cells (one heap behind the last sub-row); gaps and unused bits filled with junk; numeric cells with extremes (MIN/MAX/NaN/inf/-0 bit patterns); encoded big-endian by the harness; read through EXH/EXD::from_existing + read_row for every stored id and some absent ids; file names for all 8 languages. archive route: 1..4 sheets (mixed-case names, optional folder) with several pages and languages packed into a generated 0a0000 archive together with exd/root.exl; read through get_all_sheet_names / read_excel_sheet_header / read_excel_sheet. Oracle: the generated cell values (floats by bit pattern). Non-trivial (direct): >= 4 distinct column types incl. a string or packed bool and >= 2 rows; (archive): a sheet with >= 2 pages or >= 2 languages. Distinct by hash of the encoded page / case.",
+        rule: "[rounds 8-9: one string cell in seventy around 4 096 / 8 192 / 65 536 characters or free up to 20 000; string heap in column, reverse or rotated order, equal strings sharing an entry in half of the rows] direct route: schema of 1..24 columns over all 19 column types at non-overlapping offsets with gaps (packed bools may share a byte), arbitrary fixed-region size, 1..4 pages, 1..4 languages in the 2-byte on-disk form; 1..8 rows with distinct ids in shuffled physical order, either single-record rows with a string heap (junk gaps between strings, ASCII strings 0..300 incl. control characters) or 2..8 (up to 300) sub-rows, also with string cells (one heap behind the last sub-row); gaps and unused bits filled with junk; numeric cells with extremes (MIN/MAX/NaN/inf/-0 bit patterns); encoded big-endian by the harness; read through EXH/EXD::from_existing + read_row for every stored id and some absent ids; file names for all 8 languages. archive route: 1..4 sheets (mixed-case names, optional folder) with several pages and languages packed into a generated 0a0000 archive together with exd/root.exl; read through get_all_sheet_names / read_excel_sheet_header / read_excel_sheet. Oracle: the generated cell values (floats by bit pattern). Non-trivial (direct): >= 4 distinct column types incl. a string or packed bool and >= 2 rows; (archive): a sheet with >= 2 pages or >= 2 languages. Distinct by hash of the encoded page / case.",
         assumptions: &["string cells of sub-row sheets hold offsets relative to the end of their own sub-row's fixed-size region, with one heap behind the last sub-row (the reference reader Lumina's convention)", "only the first EXH language entry is compared (Physis reads 1 byte per language, the format stores 2)", "a sub-row sheet always has >= 2 sub-rows per row (Physis switches on row_count > 1)"],
         pre: None,
         post: None,
